@@ -191,7 +191,9 @@ def hardware(rng, decl, einsums, mapping, buffers_p=0.5, merger_p=0.3):
     b = "bindings:\n"
     for e in einsums:
         o = e["out"]
-        b += "  %s:\n  - config: Accel\n    prefix: tmp/%s\n" % (o, o)
+        # now and then a collection prefix with characters outside ASCII / outside the BMP (it is printed into the program)
+        pre = rng.choice(["tmp", "tmp", "tmp", "tmp", "tmp", "tmp", "tmp", "tmp", "tmp/\u00e9t\u00e9", "tmp/\U00020bb7\u91ce"])
+        b += "  %s:\n  - config: Accel\n    prefix: %s/%s\n" % (o, pre, o)
         single = len(e["terms"]) == 1
         # ranks (loop names) co-iterated by at least two factors of one term
         cands = []
